@@ -81,6 +81,20 @@ theorem subStoch_plain {V : Nat} {f : Frame} (hn : f.Nonneg) (hext : ∀ q v, f.
     (hs : f.blank + ((List.range V).map f.tok).sum ≤ 1) : f.SubStoch V :=
   ⟨hn, fun pre last => by rw [outW_plain hext]; exact hs⟩
 
+/-- PLAIN shallow fusion (`ext q v = factor q v · tok v` with an LM factor `exp(β · log_softmax) ≤ 1`), and any
+other frame whose extension weights never exceed the token probabilities: sub-stochastic as soon as
+`blank + Σ_v tok v ≤ 1` (audit, round e: the harness applies `C05.exact.total` to plain-fusion cases too) -/
+theorem subStoch_of_ext_le {V : Nat} {f : Frame} (hn : f.Nonneg) (hext : ∀ q v, f.ext q v ≤ f.tok v)
+    (hs : f.blank + ((List.range V).map f.tok).sum ≤ 1) : f.SubStoch V := by
+  refine ⟨hn, fun pre last => le_trans ?_ hs⟩
+  unfold outW
+  refine add_le_add (le_refl _) ?_
+  apply sum_map_le
+  intro v _
+  split
+  · exact le_refl _
+  · exact hext pre v
+
 theorem stoch_plain {V : Nat} {f : Frame} (hn : f.Nonneg) (hext : ∀ q v, f.ext q v = f.tok v)
     (hs : f.blank + ((List.range V).map f.tok).sum = 1) : f.Stoch V :=
   ⟨hn, fun pre last => by rw [outW_plain hext]; exact hs⟩
